@@ -107,9 +107,9 @@ def wFSh : FS := (run wCfg FS.empty [.writeFile ['a'] ['x'] 0o644]).1
 
 def wHard : Mutation := { path := ['h'], type := tHardlink, perms := 0o644, source := ['a'] }
 
-def wFSh' : FS := (mutatePaths wCfg wFSh [wHard]).1
+def wFSh2 : FS := (mutatePaths wCfg wFSh [wHard]).1
 
-theorem walk_wFSh' : walk wFSh' = [([['a']], 1), ([['h']], 1)] := by
+theorem walk_wFSh2 : walk wFSh2 = [([['a']], 1), ([['h']], 1)] := by
   rw [C06.walk_of_sorted _ (by decide +kernel)]; decide +kernel
 
 /-- extraction of the emitted layer succeeds but does not give the observed tree -/
@@ -123,11 +123,11 @@ def layerLost (fs : FS) : Bool :=
 identity is lost (the names are not registered as links: `linksRegistered` is false) -/
 theorem hardlink_identity_lost_in_layer :
     (mutatePaths wCfg wFSh [wHard]).2 = none ∧
-    linksRegistered .tarfs wFSh' = false ∧ layerLost wFSh' = true := by
+    linksRegistered .tarfs wFSh2 = false ∧ layerLost wFSh2 = true := by
   refine ⟨by decide +kernel, ?_, ?_⟩
-  · unfold linksRegistered; rw [walk_wFSh']; decide +kernel
+  · unfold linksRegistered; rw [walk_wFSh2]; decide +kernel
   · unfold layerLost writeTar observeTree
-    rw [walk_wFSh']
+    rw [walk_wFSh2]
     decide +kernel
 
 theorem wft_wFSh : WFT wFSh :=
@@ -137,7 +137,7 @@ theorem wft_wFSh : WFT wFSh :=
 theorem layer_reflects_full_fails : ¬ layer_reflects_full := by
   intro h
   obtain ⟨hok, _, hlost⟩ := hardlink_identity_lost_in_layer
-  obtain ⟨y, hy, hsy⟩ := h wFSh wFSh' [wHard] wft_wFSh (by intro k hk; intro ht; simp at hk; subst hk; cases ht)
+  obtain ⟨y, hy, hsy⟩ := h wFSh wFSh2 [wHard] wft_wFSh (by intro k hk; intro ht; simp at hk; subst hk; cases ht)
     (Prod.ext rfl hok)
   simp [layerLost, hy, hsy] at hlost
 
